@@ -25,12 +25,23 @@ use vkit::{panics::catch, Mode, Outcome, Report, Stats};
 
 #[derive(Debug, Clone, PartialEq, Eq, Hash, Serialize, Deserialize)]
 pub enum Step {
-    Http { command_api: bool, post: bool, url: String, headers: Vec<(String, String)>, body: Option<Vec<u8>> },
+    Http {
+        command_api: bool,
+        post: bool,
+        url: String,
+        headers: Vec<(String, String)>,
+        body: Option<Vec<u8>>,
+        /// further headers carrying several values under one name
+        #[serde(default)]
+        multi: Vec<(String, Vec<String>)>,
+    },
     KvSet { key: String, value: Vec<u8> },
     KvGet { key: String },
     KvList { prefix: String, cursor: u64 },
     TimeNow,
     TimerAfter { millis: u32, legacy: bool },
+    /// clear the `which`-th timer started so far through that API (whether or not it has completed)
+    ClearTimer { legacy: bool, which: u8 },
     Render,
 }
 #[derive(Debug, Clone, PartialEq, Eq, Hash, Serialize, Deserialize)]
@@ -72,15 +83,21 @@ pub struct Capabilities {
 }
 #[derive(Default)]
 pub struct App;
-#[derive(Default, Serialize, Deserialize, Clone, Debug, PartialEq)]
+#[derive(Default)]
 pub struct Model {
+    pub log: Vec<String>,
+    legacy_timers: Vec<TimerId>,
+    handles: Vec<Option<crux_time::command::TimerHandle>>,
+}
+#[derive(Default, Serialize, Deserialize, Clone, Debug, PartialEq)]
+pub struct View {
     pub log: Vec<String>,
 }
 
 impl crux_core::App for App {
     type Event = Event;
     type Model = Model;
-    type ViewModel = Model;
+    type ViewModel = View;
     type Capabilities = Capabilities;
     type Effect = Effect;
     fn update(&self, ev: Event, m: &mut Model, caps: &Capabilities) -> Command<Effect, Event> {
@@ -89,20 +106,28 @@ impl crux_core::App for App {
         type T = crux_time::command::Time<Effect, Event>;
         match ev {
             Event::Do(step) => match step {
-                Step::Http { command_api: true, post, url, headers, body } => {
+                Step::Http { command_api: true, post, url, headers, body, multi } => {
                     let mut b = if post { H::post(&url) } else { H::get(&url) };
                     for (n, v) in &headers {
                         b = b.header(n.as_str(), v.as_str());
+                    }
+                    for (n, vs) in &multi {
+                        let vals: Vec<crux_http::http::headers::HeaderValue> = vs.iter().map(|v| v.parse().unwrap()).collect();
+                        b = b.header(n.as_str(), &vals[..]);
                     }
                     if let Some(body) = body {
                         b = b.body_bytes(body);
                     }
                     b.build().then_send(Event::Http)
                 }
-                Step::Http { command_api: false, post, url, headers, body } => {
+                Step::Http { command_api: false, post, url, headers, body, multi } => {
                     let mut b = if post { caps.http.post(&url) } else { caps.http.get(&url) };
                     for (n, v) in &headers {
                         b = b.header(n.as_str(), v.as_str());
+                    }
+                    for (n, vs) in &multi {
+                        let vals: Vec<crux_http::http::headers::HeaderValue> = vs.iter().map(|v| v.parse().unwrap()).collect();
+                        b = b.header(n.as_str(), &vals[..]);
                     }
                     if let Some(body) = body {
                         b = b.body_bytes(body);
@@ -115,11 +140,28 @@ impl crux_core::App for App {
                 Step::KvList { prefix, cursor } => K::list_keys(prefix, cursor).then_send(|r| Event::Told(format!("list {r:?}"))),
                 Step::TimeNow => T::now().then_send(|_| Event::Told("now".into())),
                 Step::TimerAfter { millis, legacy: false } => {
-                    let (b, _handle) = T::notify_after(Duration::from_millis(millis as u64));
+                    let (b, handle) = T::notify_after(Duration::from_millis(millis as u64));
+                    m.handles.push(Some(handle));
                     b.then_send(|o| Event::Told(format!("timer {}", matches!(o, crux_time::command::TimerOutcome::Completed(_)))))
                 }
                 Step::TimerAfter { millis, legacy: true } => {
-                    let _ = caps.time.notify_after(Duration::from_millis(millis as u64), |_| Event::Told("legacy timer".into()));
+                    let id = caps.time.notify_after(Duration::from_millis(millis as u64), |r| Event::Told(format!("legacy timer {}", matches!(r, TimeResponse::DurationElapsed { .. }))));
+                    m.legacy_timers.push(id);
+                    Command::done()
+                }
+                Step::ClearTimer { legacy: true, which } => {
+                    if !m.legacy_timers.is_empty() {
+                        caps.time.clear(m.legacy_timers[which as usize % m.legacy_timers.len()]);
+                    }
+                    Command::done()
+                }
+                Step::ClearTimer { legacy: false, which } => {
+                    if !m.handles.is_empty() {
+                        let k = which as usize % m.handles.len();
+                        if let Some(h) = m.handles[k].take() {
+                            h.clear();
+                        }
+                    }
                     Command::done()
                 }
                 Step::Render => crux_core::render::render(),
@@ -141,8 +183,8 @@ impl crux_core::App for App {
             }
         }
     }
-    fn view(&self, m: &Model) -> Model {
-        m.clone()
+    fn view(&self, m: &Model) -> View {
+        View { log: m.log.clone() }
     }
 }
 
@@ -207,7 +249,15 @@ pub fn replay(history: &[Action]) -> Result<Vec<(Vec<u8>, Vec<u8>)>, String> {
                     }
                     let req = outstanding.remove(*c as usize * outstanding.len() >> 16);
                     let Some(resp) = answer_for(&req.effect) else { continue };
-                    bridge.handle_response(req.id.0, &resp).map_err(|e| e.to_string())?
+                    match bridge.handle_response(req.id.0, &resp) {
+                        Ok(bytes) => bytes,
+                        Err(e) => {
+                            // e.g. the legacy time API sends `Clear` as a notification, which takes no answer:
+                            // the refusal is part of the observable behaviour and has to be the same in every replay
+                            rows.push((format!("refused: {e}").into_bytes(), bridge.view().map_err(|e| e.to_string())?));
+                            continue;
+                        }
+                    }
                 }
             };
             let raw: Vec<BridgeRequest<EffectFfi>> = opts().deserialize(&bytes).map_err(|e| format!("returned requests do not decode: {e}"))?;
@@ -341,12 +391,14 @@ pub fn strategy() -> BoxedStrategy<Case> {
     let url = prop_oneof![Just("http://example.com/a".to_string()), Just("https://example.com/b?x=1".to_string()), "http://h\\.example/[a-z]{1,6}"];
     let key = "[a-zé]{0,6}";
     let step = prop_oneof![
-        6 => (any::<bool>(), any::<bool>(), url, headers.clone(), proptest::option::of(prop::collection::vec(any::<u8>(), 0..8))).prop_map(|(command_api, post, url, headers, body)| Step::Http { command_api, post, url, headers, body }),
+        6 => (any::<bool>(), any::<bool>(), url, headers.clone(), proptest::option::of(prop::collection::vec(any::<u8>(), 0..8)), prop::collection::vec(("x-m[a-c]", prop::collection::vec("[!-~]{1,6}", 2..6)), 0..3))
+            .prop_map(|(command_api, post, url, headers, body, multi)| Step::Http { command_api, post, url, headers, body, multi }),
         1 => (key, prop::collection::vec(any::<u8>(), 0..6)).prop_map(|(key, value)| Step::KvSet { key, value }),
         1 => key.prop_map(|key| Step::KvGet { key }),
         1 => (key, any::<u64>()).prop_map(|(prefix, cursor)| Step::KvList { prefix, cursor }),
         1 => Just(Step::TimeNow),
-        2 => (0u32..5000, any::<bool>()).prop_map(|(millis, legacy)| Step::TimerAfter { millis, legacy }),
+        3 => (0u32..5000, any::<bool>()).prop_map(|(millis, legacy)| Step::TimerAfter { millis, legacy }),
+        2 => (any::<bool>(), any::<u8>()).prop_map(|(legacy, which)| Step::ClearTimer { legacy, which }),
         1 => Just(Step::Render),
     ];
     let action = prop_oneof![3 => step.prop_map(Action::Send), 2 => any::<u16>().prop_map(Action::Answer)];
@@ -361,7 +413,7 @@ pub fn strategy() -> BoxedStrategy<Case> {
 fn reproducer(sig: &str) -> Option<Case> {
     let hs = |n: usize| (0..n).map(|i| (format!("x-h{i}"), format!("{i}"))).collect::<Vec<_>>();
     match sig {
-        "http-header-order-depends-on-hash-seed" => Some(Case::History(vec![Action::Send(Step::Http { command_api: true, post: false, url: "http://example.com/a".into(), headers: hs(8), body: None })])),
+        "http-header-order-depends-on-hash-seed" => Some(Case::History(vec![Action::Send(Step::Http { command_api: true, post: false, url: "http://example.com/a".into(), headers: hs(8), body: None, multi: vec![] })])),
         "response-eq-depends-on-header-iteration-order" => Some(Case::ResponseEq { headers: hs(8), body: vec![], rotate: 3, mutation: Mutation::None }),
         "response-eq-ignores-header-difference" => Some(Case::ResponseEq { headers: vec![], body: vec![], rotate: 0, mutation: Mutation::AddHeader }),
         _ => None,
@@ -420,7 +472,16 @@ pub fn main(mode: Mode) {
         let (nt, labels): (bool, Vec<&str>) = match c {
             Case::History(h) => {
                 let many = h.iter().any(|a| matches!(a, Action::Send(Step::Http { headers, .. }) if headers.iter().map(|(n, _)| n.to_ascii_lowercase()).collect::<std::collections::BTreeSet<_>>().len() >= 3));
-                (many, vec!["kind:history", if many { "history:http>=3-header-names" } else { "history:other" }])
+                let multi = h.iter().any(|a| matches!(a, Action::Send(Step::Http { multi, .. }) if multi.iter().any(|(_, v)| v.len() >= 2)));
+                let cleared = h.iter().any(|a| matches!(a, Action::Send(Step::ClearTimer { .. }))) && h.iter().any(|a| matches!(a, Action::Send(Step::TimerAfter { .. })));
+                let mut l = vec!["kind:history", if many { "history:http>=3-header-names" } else { "history:other" }];
+                if multi {
+                    l.push("history:multi-valued-header");
+                }
+                if cleared {
+                    l.push("history:timer-started-and-cleared");
+                }
+                (many || multi || cleared, l)
             }
             Case::ResponseEq { headers, mutation, .. } => {
                 let in_headers = matches!(mutation, Mutation::DropHeader(_) | Mutation::AddHeader | Mutation::ChangeValue(_));
@@ -506,7 +567,7 @@ pub fn main(mode: Mode) {
                 Report {
                     prop,
                     tier,
-                    rule: "histories of 1-13 actions (HTTP requests with 0-8 headers through the command and the capability API, key-value set/get/list, time now / timers through both time APIs, renders, answers to outstanding requests in generated order) replayed 3x on fresh threads through the bincode bridge and, for up to 400 of them, in 4 fresh processes; plus pairs of responses built independently from one description (headers inserted in rotated order; optionally one header dropped / added / changed, status or body changed), each pair rebuilt and compared 16x in both directions; non-trivial = a history with an HTTP request carrying >= 3 distinct header names, or an equality pair that is equal by construction with >= 3 headers or differs only in headers; distinct = distinct case",
+                    rule: "histories of 1-13 actions (HTTP requests with 0-8 headers and 0-2 multi-valued headers of 2-5 values through the command and the capability API, key-value set/get/list, time now / timers started and cleared - before or after they completed - through both time APIs, renders, answers to outstanding requests in generated order) replayed 3x on fresh threads through the bincode bridge and, for up to 400 of them, in 4 fresh processes; plus pairs of responses built independently from one description (headers inserted in rotated order; optionally one header dropped / added / changed, status or body changed), each pair rebuilt and compared 16x in both directions; non-trivial = a history with an HTTP request carrying >= 3 distinct header names or a multi-valued header, or with a timer that is started and a clear, or an equality pair that is equal by construction with >= 3 headers or differs only in headers; distinct = distinct case",
                     assumptions: vec![
                         "timer ids are renamed by first occurrence before comparing (the statement leaves their numbering open)".into(),
                         "fresh threads and fresh processes have different hash seeds (std RandomState)".into(),
